@@ -26,6 +26,7 @@ import (
 	_ "golang.org/x/crypto/blake2s"
 	_ "golang.org/x/crypto/ripemd160"
 
+	"verifharness/fc"
 	"verifharness/h"
 	"verifharness/ref/curl"
 	ref "verifharness/ref/pow"
@@ -33,6 +34,7 @@ import (
 )
 
 func TestMain(m *testing.M) {
+	h.FirstCallsChild(fc.Pow()) // never returns in a first-call child process
 	if spec := os.Getenv("VERIF_POW_CHILD"); spec != "" {
 		childMain(spec) // never returns
 	}
@@ -617,3 +619,6 @@ func genLow(t *rapid.T) mineCase {
 	c.Target, c.Class = bitsOf(o.f), o.name
 	return c
 }
+
+// which public entry point is called first in a process (and by how many goroutines at once)
+func TestFirstCalls(t *testing.T) { h.FirstCallsSub(t, "C11", fc.Pow(), 6) }
